@@ -371,10 +371,12 @@ def settings_steps(rep, kind):
                   ("gen_response_spectrum(response_times=3 custom)", lambda o: o.gen_response_spectrum(response_times=RT_A * 0.8)),
                   ("response_series(response_times=4 custom)", lambda o: o.response_series(response_times=RT_B * 1.1))]
     n = 0
-    for ctor in (0, 1):
-        for an, fa_ in forms:
-            for bn, fb_ in forms:
-                o = make(kind) if ctor else cls(base_record(), 0.01)
+    long_forms = [f for f in forms if ("by_range" in f[0] or "smooth_freq_range" in f[0] or "smooth_freq_points" in f[0])]
+    long_rec = base_record(n=10240 + 37, seed=5)          # (a long record: implementations may keep more between calls for those)
+    for ctor in ((0, 1, 2) if kind == "Signal" else (0, 1)):        # (the long pass on plain Signals: the spectra code is shared)
+        for an, fa_ in (forms if ctor < 2 else long_forms):
+            for bn, fb_ in (forms if ctor < 2 else long_forms):
+                o = make(kind) if ctor == 1 else (cls(base_record(), 0.01) if ctor == 0 else cls(long_rec.copy(), 0.01))
                 try:
                     read_all_inplace(o, kind)
                     apply_op(o, fa_)
@@ -388,7 +390,7 @@ def settings_steps(rep, kind):
                 rep.count("SettingsPair")
                 stale = [q for q in QORDER[kind] if not fresh[q]] + [r for r in UNCACHED if not fresh[r]]
                 if stale:
-                    rep.fail("NoStale[%s]" % stale[0], "settings", {"kind": kind, "constructed": ["with the default settings", "with custom settings"][ctor],
+                    rep.fail("NoStale[%s]" % stale[0], "settings", {"kind": kind, "constructed": ["with the default settings", "with custom settings", "with the default settings, 10 277 samples"][ctor],
                                                                      "first": an, "then": bn, "stale": stale})
     return n
 
